@@ -142,6 +142,18 @@ mutual
 theorem nbS_targets (D : Dom) (x : Nat) : ∀ (s : Stmt) (σ : Store D), x ∈ evTargets (nbS D s σ) → x ∈ targetsS s
   | .set l r, σ, h => by
     simpa [nbS, evTargets, targetsS] using h
+  | .setDyn v vw w idx r, σ, h => by
+    simp only [nbS] at h
+    simp only [targetsS, List.mem_singleton]
+    cases hi : D.idx σ.get idx with
+    | none =>
+      simp only [hi, evTargets, List.mem_singleton, List.mem_cons, List.not_mem_nil, or_false] at h
+      exact h
+    | some i =>
+      simp only [hi] at h
+      split at h
+      · simpa [evTargets, dynLhs] using h
+      · simp [evTargets] at h
   | .ite c t e, σ, h => by
     simp only [nbS] at h
     simp only [targetsS, List.mem_append]
